@@ -23,7 +23,7 @@ N = {'quick': 1500, 'thorough': 30000}
 SHARDS = {'quick': 4, 'thorough': 16}
 
 KINDS = ['null', 'dict', 'file_pkl', 'file_json', 'file_src', 'dir_dill', 'dir_fast', 'dir_z', 'dir_json', 'dir_src', 'sql_mem', 'sql_file']
-KEYS = ['a', 'b', 'c', 'k1', '(1, 2)']
+KEYS = ['a', 'b', 'c', 'OK_1', '(1, 2)']      # 'OK_1' contains the directory archives' own entry prefix 'K_'
 OPS = ['cset', 'cset', 'cset', 'cdel', 'cpop', 'cupdate', 'cclear', 'aset', 'aset', 'aset', 'adel', 'aclear', 'dump', 'dump', 'dumpk', 'dumpk', 'load', 'load',
        'loadk', 'loadk', 'sync', 'sync', 'syncclear', 'off', 'on', 'on', 'query', 'open', 'assign', 'drop']
 
@@ -94,7 +94,7 @@ def _run(case, root):
     classes = ['kind:' + kind]
     out = []
     # dir_archive(serialized=False) reads entries back with 'from K_<key> import memo': keys must be identifier-safe
-    KEYS = ['a', 'b', 'c', 'k1', 'k_2'] if kind == 'dir_src' else globals()['KEYS']
+    KEYS = ['a', 'b', 'c', 'OK_1', 'k_2'] if kind == 'dir_src' else globals()['KEYS']
     if case.get('keyfam') == 'int':
         KEYS = [3, 12, -7, 0, 2 ** 40]
         classes.append('int_keys')
